@@ -133,6 +133,58 @@ def _dt(it, a, kw):
     return SInt(K.dtprofup_of(a[0].e))
 
 
+own_files = _sym("own_files")
+
+
+def _name_symbols(it, name):
+    """the symbols a path name depends on; a name derived from another path depends on what that one depends on"""
+    import z3 as _z3
+    from pyvc.values import SVal as _SVal, SStr as _SStr
+    from pyvc.models import _free_vars
+    if isinstance(name, tuple) and name and name[0] == "derived":
+        return _name_symbols(it, name[1].name) | {"<derived-from-the-cache-entry>"} if name[1].is_cache else _name_symbols(it, name[1].name)
+    if isinstance(name, _SVal):
+        return set(str(v) for v in _free_vars(name.e))
+    if isinstance(name, _SStr):
+        out = set()
+        for g, c in name.items:
+            for x in (g, c):
+                if _z3.is_expr(x):
+                    out |= set(str(v) for v in _free_vars(x))
+        return out
+    return set()
+
+
+def _own_files(it, a, kw):
+    """every file this call writes (opens for writing, moves) is the institution's own cache entry, or has a name that depends
+    on everything the cache entry's name depends on (ORG, FID ...) or is derived from it - so that no file is shared with
+    the requests of another institution running in the same process"""
+    z3, K, SVal, SBool, SInt, V = _c15()
+    ghost, fs = a
+    paths = fs.get("paths", [])
+    if not paths:
+        return True
+    cache = paths[0]
+    need = _name_symbols(it, cache.name)
+    touched = []
+    for c in ghost["calls"]:
+        if c[0] in ("fs-scratch-open", "fs-scratch-write"):
+            touched.append(c[1])
+        if c[0] == "fs-replace":
+            touched += [c[1], c[2]]
+    for q in touched:
+        if q is cache:
+            continue
+        have = _name_symbols(it, q.name)
+        if "<derived-from-the-cache-entry>" in have or need <= have and need:
+            continue
+        if not need:
+            continue          # the cache entry's own name is a constant (no ORG, no FID): nothing to depend on
+        return False
+    return True
+
+
+own_files._pyvc_model = _own_files
 validated_by_this_call = _sym("validated_by_this_call")
 
 
